@@ -3,10 +3,12 @@
 Coq: Objects/{Model,Spec,Proofs}.v (Props/C08.v).  Correspondence: a generated class table (<= 3 classes whose
 fields are int / str / bool / optional / [int...] / another class / optional class / list of objects, constructor
 with arguments, a fixed method family per field) and a history (<= 15 constructions, method calls, field
-reads / writes, aliasings through assignment, argument passing, return values, lists and fields, `is` tests) are
-rendered BOTH as an .ms program (run by the real binary) and as input of the extracted model; stdout and the
-exit class are compared line by line.  Independently the binary is compared with an executable reading of the
-property (oracle below: Python objects, identity = Python identity)."""
+reads / writes / op-assign through paths x.f.g, aliasings through assignment, argument passing, return values,
+lists, fields and a map round trip, `is` tests, nil field accesses) are rendered BOTH as an .ms program (run by the
+real binary) and as input of the extracted model; stdout and the exit class are compared line by line.
+Independently the binary is compared with an executable reading of the property (oracle below: Python objects,
+identity = Python identity); a failing history is shrunk by dropping operations.  The extracted model is also run
+with legacy = true (the tree before fixes/c08-*.diff) to name a failure that is one of the repaired defects."""
 import json
 import os
 import shutil
@@ -201,6 +203,7 @@ def render_classes(prog, used=None):
 #  ("lnew", dst, elemtype, [operand])  ("lpush", path, operand)  ("lget", dst, path, i)  ("llen", path)
 #  ("pass", path, f, lit)              bump_Ck_f(p, lit)      ("retsame", dst, path)   dst = same_Ck(p)
 #  ("is", path, path)
+#  ("viamap", dst, path)               dst = thru_Ck(p): the object is stored in a map and taken out again (m.replace)
 # path = (var, field, field, ...);  operand = ("L", literal) | ("P", path)
 
 def printable(t):
@@ -331,6 +334,10 @@ class Typer:
             self.bind(op[1], t)
         elif k == "is":
             need(is_obj(self.ptype(op[1])[0]) and is_obj(self.ptype(op[2])[0]))
+        elif k == "viamap":
+            t, definite = self.ptype(op[2])
+            need(t[0] == "cls" and definite and op[1] != op[2][0])
+            self.bind(op[1], opt(t))
         else:
             raise Invalid()
 
@@ -509,6 +516,8 @@ class Oracle:
             env[op[1]] = self.obj(self.path(op[2]))
         elif k == "is":
             return [self.path(op[1]) is self.path(op[2])]
+        elif k == "viamap":
+            env[op[1]] = self.obj(self.path(op[2]))      # what comes out of the map is the object that went in
         else:
             raise Invalid()
         return []
@@ -628,6 +637,11 @@ def render_program(prog, hist):
             assign(op[1], "%s(%s)" % (hn, path_src(op[2])))
         elif k == "is":
             lines.append("print %s is %s" % (path_src(op[1]), path_src(op[2])))
+        elif k == "viamap":
+            c = ty.ptype(op[2])[0][1]
+            hn = "thru_C%d" % c
+            helpers[hn] = "%s = fn(o: C%d) -> C%d? {\n\tm = map[str, C%d] { \"k\": o }\n\treturn m.replace(\"k\", o)\n}\n" % (hn, c, c, c)
+            assign(op[1], "%s(%s)" % (hn, path_src(op[2])))
         else:
             raise Invalid()
         ty.apply(op)
@@ -705,6 +719,8 @@ def model_line(prog, hist):
             out.append("retsame %d %s" % (op[1], m_path(op[2])))
         elif k == "is":
             out.append("is %s %s" % (m_path(op[1]), m_path(op[2])))
+        elif k == "viamap":
+            out.append("viamap %d %s" % (op[1], m_path(op[2])))
         else:
             raise Invalid()
         ty.apply(op)
@@ -921,7 +937,7 @@ class Gen:
         rng = self.rng
         P = self.prog
         kinds = ["new"] * 2 + ["bind"] * 4 + ["write"] * 4 + ["opassign"] * 2 + ["print"] * 4 + ["isnil"] + \
-                ["call"] * 8 + ["lnew", "lpush", "lpush", "lget", "lget", "llen"] + ["pass"] * 2 + ["retsame"] * 2 + ["is"] * 4
+                ["call"] * 8 + ["lnew", "lpush", "lpush", "lget", "lget", "llen"] + ["pass"] * 2 + ["retsame"] * 2 + ["is"] * 4 + ["viamap"] * 2
         if self.thin:
             kinds = ["new", "bind", "bind", "call", "call", "call", "is", "is", "print"]
         k = rng.choice(kinds)
@@ -983,13 +999,15 @@ class Gen:
         if k == "isnil":
             p = self.choose_path(lambda t: t[0] == "opt")
             return None if p is None or len(p) < 2 else ("isnil", p)
-        if k == "retsame" or k == "pass":
-            p = self.choose_path(lambda t: t[0] == "cls", definite=True)
+        if k in ("retsame", "pass", "viamap"):
+            p = self.choose_path(lambda t: t[0] == "cls", definite=True, deref=True)
             if p is None:
                 return None
             c = self.ty.ptype(p)[0][1]
             if k == "retsame":
                 return ("retsame", self.dst(cls(c), (p[0],)), p)
+            if k == "viamap":
+                return ("viamap", self.dst(opt(cls(c)), (p[0],)), p)
             fs = [f for f, t in enumerate(P["classes"][c]["fields"]) if tt(t) in (INT, STR)]
             if not fs:
                 return None
@@ -1117,6 +1135,10 @@ def fixed_cases():
         (p, [("new", 0, 0, [L(1), L(s("a"))]), ("new", 1, 0, [L(2), L(s("b"))]), ("write", (0,), 3, V(1)), ("is", (0, 3), (1,)), ("write", (0, 3), 0, L(9)),
              ("print", (1, 0)), ("bind", 2, (0, 3), False), ("is", (2,), (1,)), ("call", 3, (1,), "dup", []), ("is", (3,), (1,)), ("write", (3,), 0, V(0, 0)),
              ("print", (1, 0)), ("write", (0,), 3, L(None)), ("isnil", (0, 3)), ("bind", 4, (0, 3), True)]),
+        # an object stored in a map and taken out again (a present optional): the same object
+        (p, [("new", 0, 0, [L(1), L(s("a"))]), ("viamap", 1, (0,)), ("is", (1,), (0,)), ("is", (0,), (1,)), ("print", (1, 0)), ("opassign", (1,), 0, "add", 5),
+             ("print", (0, 0)), ("call", "p", (1,), "inc_f0", [L(1)]), ("write", (0,), 3, V(1)), ("is", (0, 3), (0,)), ("print", (0, 3, 1)), ("bind", 2, (1,), True),
+             ("is", (2,), (0,)), ("viamap", 3, (0,)), ("is", (3,), (1,))]),
     ]
 
 
@@ -1169,6 +1191,10 @@ def evaluate(binary, base, exe, cases):
             mf = m["model"]["fail"]
             r["model_lines"] = expected_lines(mo, mf is not None)
             r["model_ok"] = got == r["model_lines"] and rc_class(rc) == (mf or "ok")
+            lo = [from_json(x) for x in m["legacy"]["obs"]]
+            lf = m["legacy"]["fail"]
+            r["legacy_lines"] = expected_lines(lo, lf is not None)
+            r["legacy_ok"] = got == r["legacy_lines"] and rc_class(rc) == (lf or "ok")
             so_ = [from_json(x) for x in m["spec"]["obs"]]
             sf_ = m["spec"]["fail"]
             r["coqspec_ok"] = expected_lines(so_, sf_ is not None) == r["spec_lines"] and (sf_ is not None) == o_failed
@@ -1182,7 +1208,7 @@ def shrink(binary, base, exe, prog, hist, bad):
     cur = list(hist)
     changed = True
     rounds = 0
-    while changed and rounds < 8:
+    while changed and rounds < 16:
         changed = False
         rounds += 1
         cands = []
@@ -1289,6 +1315,7 @@ def run(ctx):
     opcount = {}
     spec_found = False
     reported = 0
+    seen_prefix = set()
     for r in res:
         n_eval += 1
         for op in r["hist"]:
@@ -1312,6 +1339,24 @@ def run(ctx):
         if not r["coqspec_ok"]:
             ctx.report("spec-vs-oracle", "Coq specification (Objects/Spec.v) and the check's executable reading of the property disagree on %s" % model_line(r["prog"], r["hist"]),
                        {"history": r["hist"], "classes": r["prog"], "coq_spec": r["model"]["spec"], "oracle_lines": r["spec_lines"]}, found_input=False)
+        pre_fix = None
+        if (not r["spec_ok"] or not r["model_ok"]) and r.get("legacy_ok"):
+            # behaviour of the tree before fixes/c08-*.diff: a reference that went through a map is a present optional
+            # that `is` / lookup did not look into; named by the operation at which pre-fix and repaired model part
+            pre_fix = "wrapped-reference-is-false" if first_diff_op(r, "model_lines") == "is" else "wrapped-reference-lookup-fails"
+        if not r["spec_ok"] and pre_fix:
+            spec_fail += 1
+            spec_found = True
+            if pre_fix not in seen_prefix:
+                seen_prefix.add(pre_fix)
+                small = shrink(binary, base, exe, r["prog"], r["hist"], lambda x: not x["spec_ok"] and x.get("legacy_ok"))
+                rr = evaluate(binary, base, exe, [(r["prog"], small)])[0]
+                if rr["spec_ok"] or not rr["compiled"] or not rr.get("legacy_ok"):
+                    rr = r
+                pre2 = "wrapped-reference-is-false" if first_diff_op(rr, "model_lines") == "is" else "wrapped-reference-lookup-fails"
+                ctx.report(pre2, "an object stored in a map and taken out again (map.replace returns Optional(Some(object))) is not treated as that object: %s; expected exit %s, got rc %d"
+                           % (diff_msg(rr["spec_lines"], rr["got"]), "1" if rr["spec_failed"] else "0", rr["rc"]), replay_of(rr))
+            continue
         if not r["spec_ok"]:
             spec_fail += 1
             if reported < 6:
@@ -1345,7 +1390,7 @@ def run(ctx):
     ctx.cov["histories_ending_in_failure"] = n_fail_hist
     ctx.cov["rule"] = ("cases = hand-written aliasing histories + random (class table, history) pairs: <= 3 classes, 1-4 fields each of type int / str / bool / int? / str? / "
                        "[int...] / earlier class / optional class (incl. Self) / list of objects, constructor arguments in any order, literals, [] or nothing (nil); "
-                       "histories <= 15 operations; non-trivial = compiled history of >= 6 operations with >= 2 constructions and an aliasing step "
+                       "histories <= 15 operations (paths x.f.g as receivers and operands, map round trip thru_C); non-trivial = compiled history of >= 6 operations with >= 2 constructions and an aliasing step "
                        "(assignment, return value, list element, field content, argument)")
     ctx.cov["exhaustive"] = False
     ctx.cov["fixed_histories"] = n_fixed
